@@ -343,8 +343,15 @@ func VerifC19Gate() {
 	w := newGateWorld()
 	good := gSum(gGoodArc)
 	w.declared = hex.EncodeToString(good[:])
-	if verifBool("prefixed") {
+	switch verifConcrete(verifChoice("declared", 5)) {
+	case 1:
 		w.declared = "sha256:" + w.declared
+	case 2:
+		w.declared = "" // the index declares no digest
+	case 3:
+		w.declared = "sha256:"
+	case 4:
+		w.declared = w.declared[:2] // a truncated digest (first byte only)
 	}
 	w.dlMode = verifConcrete(verifChoice("download", 3))
 	switch verifConcrete(verifChoice("cache", 3)) {
